@@ -1,13 +1,17 @@
 (* C02  Every committed block is valid and carries a verifiable +2/3 commit.
    Only property theorems (closed by [exact]) and assumption reports.
-   Models: Model/Node.v (finalizeCommit), Model/VoteSet.v (MakeCommit, VerifyCommit).  The verdict
-   of state.ValidateBlock on a block is an input bit of the node model, computed by the harness
-   with the real code; the header checks inside ValidateBlock (height, previous block id, app and
-   receipts hashes, data / last-commit / validators hashes) are not modelled and are covered by
-   the engine's monitors on every committed block of every node (partial, DESIGN.md C02). *)
+   Models: Model/Node.v (finalizeCommit), Model/VoteSet.v (MakeCommit, VerifyCommit) and
+   Model/Validate.v (ConsensusState.ValidateBlock with Block.ValidateBasic, Block.ValidateCommit and
+   Commit.ValidateBasic).  In the node model the verdict of ValidateBlock on a proposal block is an
+   input bit, computed by the harness with the real code; Model/Validate.v models the verdict itself
+   and the "validate" engine compares it with the real function on well-formed blocks and mutants.
+   The three hash functions (Data.Hash, Commit.Hash, ValidatorSet.Hash) are not modelled: the
+   model compares a header field with the value the real function returns for the part (so
+   "equals the hash of what it commits to" is a statement about those oracle values; the Merkle
+   functions themselves are C03's). *)
 From Coq Require Import List NArith ZArith Lia Bool.
 From AnnVerif Require Import Base.Res Base.Bytes Model.VoteSet Model.ValSet Model.Node
-  Proofs.PowerSum Proofs.VoteSetProofs Proofs.NodeProofs.
+  Model.Validate Proofs.PowerSum Proofs.VoteSetProofs Proofs.NodeProofs Proofs.ValidateProofs.
 Import ListNotations.
 Open Scope Z_scope.
 
@@ -40,3 +44,54 @@ Theorem c02_verify_commit_sound :
                                           | None => false end).
 Proof. exact verify_commit_sound. Qed.
 Print Assumptions c02_verify_commit_sound.
+
+(* (4) what ValidateBlock's acceptance means: every part is there; chain id, height (previous + 1),
+   previous block id, application hash and receipts hash are the state's; tx count, data hash and
+   last-commit hash are those of the parts carried; the validators hash is the state's; the
+   proposer is a validator; the first block carries no precommits, every later block a last commit
+   that VerifyCommit accepts for the previous block id at the previous height under the previous
+   validator set *)
+Theorem c02_accepted_block :
+  forall st b, validate st b = 0%N -> exists hd lc, accepted st b hd lc.
+Proof. exact validate_sound. Qed.
+Print Assumptions c02_accepted_block.
+
+(* (5) ... so that more than two thirds of the previous validator set's power signed precommits
+   for exactly the previous block id, at the previous height, in one single round, with valid
+   signatures *)
+Theorem c02_accepted_block_commit_quorum :
+  forall st b hd lc, bounded (s_lastvals st) -> accepted st b hd lc -> hd_height hd <> 1 ->
+  length (c_pre lc) = length (s_lastvals st) /\
+  two_thirds (s_lastvals st) <
+    pow_of (s_lastvals st) (fun i => match nth i (c_pre lc) None with
+                                     | Some v => good_full (s_last st) (hd_height hd - 1) (VoteSet.commit_round lc) v
+                                     | None => false end).
+Proof. exact accepted_commit_quorum. Qed.
+Print Assumptions c02_accepted_block_commit_quorum.
+
+(* (6) chains of accepted blocks are linear, whatever ids and hashes applying them yields: heights
+   step by exactly one and every block names the id, the application hash and the receipts hash
+   its predecessor produced *)
+Theorem c02_chain_linear :
+  forall l st st', run_chain st l = Some st' ->
+  linked (s_height st) (s_last st) (s_app st) (s_rcp st) l /\ s_height st' = s_height st + Z.of_nat (length l).
+Proof. exact chain_linear. Qed.
+Print Assumptions c02_chain_linear.
+
+(* ---- non-vacuity: a first block and its successor (one validator) are accepted and form a chain;
+   the successor with a foreign application hash is rejected with code 7 ---- *)
+Definition vx_vals : list validator := [([1%N], 1)].
+Definition vx_st0 : vstate := mkVState [99%N] 0 (mkBid [] 0 []) [5%N] [] vx_vals [42%N] vx_vals.
+Definition vx_b1 : block :=
+  mkBlock (Some (mkHeader [99%N] 1 0 (mkBid [] 0 []) [] [] [42%N] [5%N] [] [1%N])) (Some (0, [])) (Some (mkCommit (mkBid [] 0 []) [], [])).
+Definition vx_id1 : block_id := mkBid [11%N] 1 [12%N].
+Definition vx_pc : vote := mkVote [1%N] 0 1 0 2 vx_id1 [7%N] true.
+Definition vx_b2 (app : bytes) : block :=
+  mkBlock (Some (mkHeader [99%N] 2 1 vx_id1 [13%N] [14%N] [42%N] app [15%N] [1%N])) (Some (1, [14%N]))
+          (Some (mkCommit vx_id1 [Some vx_pc], [13%N])).
+Example c02_nonvacuous :
+  validate vx_st0 vx_b1 = 0%N /\
+  option_map s_height (run_chain vx_st0 [mkApplied vx_b1 vx_id1 [6%N] [15%N] vx_vals [42%N];
+                                         mkApplied (vx_b2 [6%N]) (mkBid [21%N] 1 [22%N]) [8%N] [] vx_vals [42%N]]) = Some 2 /\
+  validate (advance vx_st0 (mkHeader [99%N] 1 0 (mkBid [] 0 []) [] [] [42%N] [5%N] [] [1%N]) vx_id1 [6%N] [15%N] vx_vals [42%N]) (vx_b2 [5%N]) = 7%N.
+Proof. vm_compute. repeat split; reflexivity. Qed.
